@@ -12,13 +12,13 @@ PINS = os.path.join(HERE, "pins.json")
 
 # property -> list of "path" (whole file) or "path::fn_a,fn_b" (the named functions, every definition of that name in the file)
 SPEC = {
-    "C01": ["samply/src/linux_shared/processes.rs", "samply/src/linux_shared/process_threads.rs", "samply/src/linux_shared/thread.rs",
+    "C01": ["samply/src/import/perf.rs::convert_impl", "samply/src/linux_shared/processes.rs", "samply/src/linux_shared/process_threads.rs", "samply/src/linux_shared/thread.rs",
             "samply/src/shared/unresolved_samples.rs",
             "samply/src/linux_shared/converter.rs::handle_main_event_sample,handle_fork,handle_exit,handle_comm,handle_exec,handle_thread_rename,handle_context_switch,finish",
             "samply/src/linux_shared/process.rs::notify_dead,finish,recycle_or_get_new_thread",
             "samply/src/shared/process_sample_data.rs::flush_samples_to_profile", "samply/src/linux_shared/converter.rs::get_sample_stack",
             "samply/src/shared/recycling.rs", "samply/src/linux_shared/process.rs::new,rename_with_recycling,rename_without_recycling"],
-    "C17": ["samply/src/linux_shared/processes.rs", "samply/src/linux_shared/process_threads.rs", "samply/src/linux_shared/thread.rs",
+    "C17": ["samply/src/import/perf.rs::convert_impl", "samply/src/linux_shared/processes.rs", "samply/src/linux_shared/process_threads.rs", "samply/src/linux_shared/thread.rs",
             "samply/src/linux_shared/converter.rs::handle_fork,handle_exit,handle_comm,handle_exec,handle_thread_rename",
             "samply/src/linux_shared/process.rs::notify_dead,finish,rename_without_recycling,recycle_or_get_new_thread"],
     "C02": ["samply/src/shared/lib_mappings.rs", "samply/src/shared/process_sample_data.rs::flush_samples_to_profile",
